@@ -105,7 +105,11 @@ def _build(case):
     wrap = (lambda x: _v.dimension_pivot_validate(x)) if d.get('arity') else (lambda x: x)
     for v in d.get('validators', []):
       m = m.with_validator(wrap(_mk_validator(v)))
-    if d.get('conds'):
+    if d.get('conds') and i != 0 and len({r for r, _ in d['conds']}) == len(d['conds']):
+      # one validate_on() call per entry: a later call adds to what the earlier ones declared
+      for r, v in d['conds']:
+        m = m.validate_on({('R%d' % r): wrap(_mk_validator(v))})
+    elif d.get('conds'):
       m = m.validate_on({('R%d' % r): wrap(_mk_validator(v)) for r, v in d['conds']})
     ms.append(m)
   return ms
@@ -368,6 +372,10 @@ DECLSETS = [
     [{'validators': [['range', 0, 10, None, 8], ['range', 0, 20, None, 15]]},
      {'validators': [['range', 0, 20, None, 15], ['range', 0, 10, None, 8]], 'conds': [[0, ['range', 0, 60, None, 30]]]},
      {'arity': 1, 'validators': [['pivot_range', 0, 10, 8]]}],
+    # several conditional validators per measurement, declared by one validate_on() call each
+    [{'validators': [['range', 0, 10, None, None]], 'conds': [[2, ['range', 0, 3, None, None]], [0, ['range', 2, 10, None, None]]]},
+     {'validators': [['range', 0, 10, None, None]], 'conds': [[0, ['range', 0, 2, None, None]], [1, ['range', 3, 10, None, None]]]},
+     {'arity': 1, 'validators': [['pivot_range', 0, 10, None]], 'conds': [[1, ['equals', 3]], [2, ['equals', 1]]]}],
 ]
 
 
